@@ -116,7 +116,47 @@ func (q *queryStmtParser) validation() error {
 	if !q.allFields && len(q.selectItems) == 0 {
 		return fmt.Errorf("select fields cannbe be empty")
 	}
+	// duration literal/star is ignored when it's used as operand of an expression, the operand is left nil,
+	// such statement cannot be sent to other nodes(unmarshal fails), need reject it.
+	for _, item := range q.selectItems {
+		if hasNilOperand(item) {
+			return fmt.Errorf("select field expression is invalid")
+		}
+	}
+	if q.havingStmt != nil && hasNilOperand(q.havingStmt) {
+		return fmt.Errorf("having expression is invalid")
+	}
+	for _, item := range q.orderBy {
+		if hasNilOperand(item) {
+			return fmt.Errorf("order by expression is invalid")
+		}
+	}
 	return nil
+}
+
+// hasNilOperand checks if the expression tree has a nil operand.
+func hasNilOperand(expr stmt.Expr) bool {
+	switch e := expr.(type) {
+	case nil:
+		return true
+	case *stmt.SelectItem:
+		return hasNilOperand(e.Expr)
+	case *stmt.OrderByExpr:
+		return hasNilOperand(e.Expr)
+	case *stmt.ParenExpr:
+		return hasNilOperand(e.Expr)
+	case *stmt.NotExpr:
+		return hasNilOperand(e.Expr)
+	case *stmt.BinaryExpr:
+		return hasNilOperand(e.Left) || hasNilOperand(e.Right)
+	case *stmt.CallExpr:
+		for _, param := range e.Params {
+			if hasNilOperand(param) {
+				return true
+			}
+		}
+	}
+	return false
 }
 
 // resetExprStack resets expr stack for next parse fragment.
